@@ -113,6 +113,8 @@ def eval_seq(case):
             net.add(h, 22, fakenet.peer_from_spec({'proto': 1, 'banner': sv['banner'], 'cmask': sv.get('cmask', 0x4c), 'amask': 0x0c}))
             continue
         spec = {'banner': sv['banner'], 'kex': sv['lists']['kex'], 'key': sv['lists']['key'], 'enc': sv['lists']['enc'], 'mac': sv['lists']['mac'], 'hostkeys': {'ssh-ed25519': {'t': 'ed25519'}}, 'moduli': sv.get('moduli', []), 'gex_style': sv.get('gex_style', 'roundup')}
+        if sv.get('rsa_bits'):
+            spec['hostkeys'].update({k: {'t': 'rsa', 'bits': sv['rsa_bits']} for k in ('ssh-rsa', 'rsa-sha2-256', 'rsa-sha2-512')})
         net.add(h, 22, fakenet.Server(spec))
     tf = drive.tmpfile('\n'.join(hosts) + '\n')
     try:
@@ -129,7 +131,7 @@ def eval_seq(case):
         f2 = []
         check_document(docs['s%d' % i], sv['lists'], sv['banner'], f2)
         fails += [[sig, 'multi-target run, server %d of %d: %s' % (i + 1, len(case['servers']), d)] for sig, d in f2]
-    return mkres(case, nt=True, classes=['seq', 'n:%d' % len(case['servers'])], fails=fails[:6])
+    return mkres(case, nt=True, classes=['seq', 'n:%d' % len(case['servers'])] + (['twins'] if case.get('twins') else []), fails=fails[:6])
 
 
 def eval_case(case):
@@ -234,6 +236,16 @@ def strat_seq():
 
     def build(t):
         first, rest = t
+        if first % 3 == 0:
+            # twins: the same banner and the same name-lists on every server, only what the probes measure differs
+            c = rest[0]
+            lists = dict(c['lists'])
+            lists['kex'] = ['curve25519-sha256'] + [k for k in lists['kex'] if k != 'curve25519-sha256'] + (['diffie-hellman-group-exchange-sha256'] if 'diffie-hellman-group-exchange-sha256' not in lists['kex'] else [])
+            lists['key'] = list(dict.fromkeys(lists['key'] + ['rsa-sha2-512', 'ssh-ed25519']))
+            sizes = [[1024, 2048, 4096], [4096, 1024, 2048], [2048, 4096, 1024], [4096, 2048, 1024], [1024, 4096, 2048], [2048, 1024, 4096]][(first // 3) % 6]
+            moduli = [[3072], [1024], [4096], [2048]]
+            n = 2 + len(rest) % 2
+            return {'kind': 'seq', 'twins': True, 'servers': [{'banner': c['banner'], 'lists': lists, 'rsa_bits': sizes[i], 'moduli': moduli[(first // 18 + i * (1 + first % 2)) % 4], 'gex_style': 'roundup'} for i in range(n)]}
         servers = [special[first % len(special)]]
         if servers[0].get('proto') == 1:
             servers.append(shared[(first // len(special) + len(rest)) % len(shared)])
